@@ -5,7 +5,7 @@
 //! recomputes every cached summary (correspondence) and judges the property's clauses.
 //!
 //! usage: c02 <ops-file> --langdump <tsv-cunit_c02> [--spec <file>] [lang...]
-//! spec line: `<lang> <texthex|-> <edits|->[@s-e,s-e…]`   edits = `start,old_end,inshex|...` (applied
+//! spec line: `<lang> <texthex|-|gen:rep:unit:n:pre:suf> <edits|->[@s-e,s-e…]`   edits = `start,old_end,inshex|...` (applied
 //! one by one with Tree::edit, then ONE re-parse with the edited old tree); `@…` = included ranges.
 use std::collections::HashSet;
 use std::io::Write;
@@ -247,7 +247,7 @@ fn emit_case(
     let spec = format!(
         "{} {} {}{}",
         lc.id,
-        if text.is_empty() { "-".to_string() } else { hex(text) },
+        if text.is_empty() { "-".to_string() } else { compact_text(text) },
         if enc_edits.is_empty() { "-".to_string() } else { enc_edits.join("|") },
         if enc_ranges.is_empty() { String::new() } else { format!("@{}", enc_ranges.join(",")) }
     );
@@ -321,6 +321,51 @@ fn emit_case(
 
 type Spec = (String, Vec<u8>, Vec<TextEdit>, Vec<(usize, usize)>);
 
+/// Text field of a spec line: hex, or for long periodic documents (the very wide ones: >= 65 536 flat
+/// children) the compact form `gen:rep:<unit-hex>:<count>:<prefix-hex|->:<suffix-hex|->`.
+fn compact_text(text: &[u8]) -> String {
+    if text.len() >= 4096 {
+        for pre in 0..=1usize {
+            for suf in 0..=1usize {
+                let body = &text[pre..text.len() - suf];
+                for p in 1..=8usize {
+                    if body.len() % p == 0 && body.chunks(p).all(|c| c == &body[..p]) {
+                        let h = |b: &[u8]| if b.is_empty() { "-".to_string() } else { hex(b) };
+                        return format!("gen:rep:{}:{}:{}:{}", hex(&body[..p]), body.len() / p, h(&text[..pre]), h(&text[text.len() - suf..]));
+                    }
+                }
+            }
+        }
+    }
+    hex(text)
+}
+
+fn expand_text(field: &str) -> Option<Vec<u8>> {
+    if field == "-" {
+        return Some(vec![]);
+    }
+    if let Some(rest) = field.strip_prefix("gen:rep:") {
+        let f: Vec<&str> = rest.split(':').collect();
+        if f.len() != 4 {
+            return None;
+        }
+        let unit = unhex(f[0]);
+        let n: usize = f[1].parse().ok()?;
+        if unit.len() * n > 64 << 20 {
+            return None;
+        }
+        let mut t = if f[2] == "-" { vec![] } else { unhex(f[2]) };
+        for _ in 0..n {
+            t.extend_from_slice(&unit);
+        }
+        if f[3] != "-" {
+            t.extend_from_slice(&unhex(f[3]));
+        }
+        return Some(t);
+    }
+    Some(unhex(field))
+}
+
 fn parse_spec(line: &str) -> Option<Spec> {
     let line = line.split('#').next().unwrap_or("");
     let parts: Vec<&str> = line.split_whitespace().collect();
@@ -328,7 +373,7 @@ fn parse_spec(line: &str) -> Option<Spec> {
     if parts.len() != 3 {
         return None;
     }
-    let text = if parts[1] == "-" { vec![] } else { unhex(parts[1]) };
+    let text = expand_text(parts[1])?;
     let mut edits = Vec::new();
     let (edit_part, range_part) = match parts[2].split_once('@') {
         Some((a, b)) => (a, b),
@@ -595,6 +640,12 @@ fn main() {
         out.flush().unwrap();
         eprintln!("c02: replayed {} cases", st.cases);
         return;
+    }
+    // widths of the cached fields of the real SubtreeHeapData, measured by the unity build; judged in Lean
+    match std::process::Command::new(&langdump).arg("widths").output() {
+        Ok(o) if o.status.success() => out.write_all(&o.stdout).unwrap(),
+        Ok(o) => eprintln!("widths probe failed: {}", String::from_utf8_lossy(&o.stderr)),
+        Err(e) => eprintln!("widths probe: {e}"),
     }
     if let Some(corpus) = zoo_corpus("c02") {
         run_specs(&corpus, "c", &mut out, &mut st, &mut loaded, &mut get_lang);
